@@ -9,7 +9,7 @@ def build_native(src, out, extra=(), sanitize=True, timeout=600):
     cmd = ['g++', '-std=gnu++17', '-O1', '-g', '-w', '-DHAVE_CONFIG_H', '-I' + astdump.REPO + '/include', '-I' + astdump.REPO,
            '-I' + astdump.REPO + '/runtime', '-I' + astdump.REPO + '/utests']
     if sanitize:
-        cmd += ['-fsanitize=address,undefined', '-fno-sanitize=alignment', '-fno-omit-frame-pointer', '-fno-sanitize-recover=undefined']
+        cmd += ['-fsanitize=address,undefined', '-fno-sanitize=alignment,vptr', '-fno-omit-frame-pointer', '-fno-sanitize-recover=undefined']
     cmd += [src, '-o', out] + list(extra) + ['-lPocoNet', '-lPocoUtil', '-lPocoFoundation', '-lpthread']
     p = subprocess.run(cmd, stdout=subprocess.PIPE, stderr=subprocess.STDOUT, text=True, timeout=timeout)
     if p.returncode != 0:
